@@ -178,6 +178,50 @@ example : AccOk (.stream .xdma true [false, false, true]) ∧ OneExtDiffers (.st
     rulesClass (.stream .xdma true [false, false, true]) = some .dm := by
   refine ⟨trivial, by simp [OneExtDiffers], by simp [NoForeignXdmaKernel], by decide⟩
 
+/-! ### the concrete extension kernel table -/
+
+/-- `OneExtDiffers` holds for every kernel with the actual table: two of its entries differ, so no kernel
+equals all of them. -/
+theorem xdma_table_one_differs (k : KSig) : false ∈ matchesOf k := by
+  simp only [matchesOf, xdmaExtKernels, List.map_cons, List.map_nil, List.mem_cons, List.not_mem_nil,
+    or_false]
+  by_cases h : (⟨"kernel.rescale", ["i32", "i8"]⟩ : KSig) = k
+  · right; left
+    subst h
+    decide
+  · left
+    simp [h]
+
+/-- Every kernel an xDMA extension provides (rescale down i32->i8, rescale up i8->i32, add on i32) makes
+the streaming region a data-mover op and nothing else; every other kernel on the xDMA is claimed by
+neither rule (DC14a); on any other registered accelerator the region is a compute op. -/
+theorem xdma_kernel_classes (k : KSig) :
+    (k ∈ xdmaExtKernels → rulesClass (.stream .xdma true (matchesOf k)) = some .dm) ∧
+    (k ∉ xdmaExtKernels → rulesClass (.stream .xdma true (matchesOf k)) = some .all) ∧
+    rulesClass (.stream .other true (matchesOf k)) = some .cp := by
+  have hd := xdma_table_one_differs k
+  have hany : (matchesOf k).any (fun m => !m) = true := by
+    simp only [List.any_eq_true]; exact ⟨false, hd, rfl⟩
+  have hiff : (matchesOf k).any id = true ↔ k ∈ xdmaExtKernels := by
+    simp only [matchesOf, List.any_map, List.any_eq_true, Function.comp, id, decide_eq_true_eq]
+    constructor
+    · rintro ⟨e, he, rfl⟩; exact he
+    · intro h; exact ⟨k, h, rfl⟩
+  refine ⟨fun h => ?_, fun h => ?_, ?_⟩
+  · have h1 := hiff.mpr h
+    simp [rulesClass, ruleDm, ruleCp, accCheck, h1, hany]
+  · have h1 : (matchesOf k).any id = false := by
+      cases hx : (matchesOf k).any id
+      · rfl
+      · exact absurd (hiff.mp hx) h
+    simp [rulesClass, ruleDm, ruleCp, accCheck, h1, hany]
+  · simp [rulesClass, ruleDm, ruleCp, accCheck]
+
+example : matchesOf ⟨"kernel.rescale", ["i32", "i8"]⟩ = [true, false, false] ∧
+    matchesOf ⟨"kernel.rescale", ["i8", "i32"]⟩ = [false, true, false] ∧
+    matchesOf ⟨"kernel.add", ["i32", "i32", "i32"]⟩ = [false, false, true] ∧
+    matchesOf ⟨"kernel.rescale", ["i32", "i32"]⟩ = [false, false, false] := by decide
+
 /-- The annotated call offers exactly the core ids `0 … nb-1` for pinning. -/
 theorem pin_constants_cover (f : Func) (nb k : Nat) (pins : List Nat)
     (h : Pre.call pins ∈ (dispatch true nb f).pre) (hpre : f.pre = []) : k ∈ pins ↔ k < nb := by
